@@ -331,8 +331,16 @@ def ordering(ck, S, victim_is_first):
                     if is_ref_to(base, b_decl):
                         return bd if role[nm] == "date" else bi
             if n.get("k") == "call" and n.get("op") in ("<", ">", "<=", ">=", "==", "!=") and len(n.get("args", [])) == 2:
-                x, y = eval_int(n["args"][0], leaf), eval_int(n["args"][1], leaf)
-                if x is None or y is None:
+                def ev(x):
+                    # std::tie / make_tuple / pair of key fields compare lexicographically, like Python tuples
+                    x = skip_copies(x)
+                    if isinstance(x, dict) and x.get("k") in ("call", "construct") and strip_tmpl(x.get("callee") or x.get("class") or "") in (
+                            "std::tie", "std::make_tuple", "std::forward_as_tuple", "std::make_pair", "qMakePair", "std::tuple", "std::pair", "QPair"):
+                        parts = [ev(a) for a in x.get("args", [])]
+                        return None if any(p is None for p in parts) else tuple(parts)
+                    return eval_int(x, leaf)
+                x, y = ev(n["args"][0]), ev(n["args"][1])
+                if x is None or y is None or type(x) != type(y):
                     return None
                 return int({"<": x < y, ">": x > y, "<=": x <= y, ">=": x >= y, "==": x == y, "!=": x != y}[n["op"]])
             return None
